@@ -102,7 +102,7 @@ class Result:
 def run_property(prop: str, tier: str, seed: int, jobs: int, only: Optional[str] = None) -> int:
     t_start = time.time()
     sys.path.insert(0, VERIF)
-    sys.path.insert(0, "/repo")
+    sys.path.insert(0, os.environ.get("VF_REPO", "/repo"))
     modname = f"harness.{prop}"
     os.environ["VF_SYMBOLIC"] = "0"
     mod = importlib.import_module(modname)
@@ -161,8 +161,12 @@ def run_property(prop: str, tier: str, seed: int, jobs: int, only: Optional[str]
         elif r.status == "known":
             known_lines.append(r)
 
+    by_id: Dict[str, list] = {}
     for r in known_lines:
-        print(f"KNOWN-FINDING: property={prop} {r.known_id}: {r.detail}")
+        by_id.setdefault(r.known_id, []).append(r)
+    for kid, rs in by_id.items():  # one line per listed finding
+        where = ", ".join(x.o.key for x in rs[:3]) + (f" (+{len(rs) - 3} more obligations)" if len(rs) > 3 else "")
+        print(f"KNOWN-FINDING: property={prop} {kid}: {rs[0].detail} [reproduced by {where}]")
     for r in violations:
         print(f"VIOLATION property={prop} replay={r.replay_path}")
         print(f"  obligation {r.o.key}: {r.detail}")
